@@ -395,8 +395,11 @@ func (obj *Array) LoadForm() Object {
 		// to be a literal, it can be any object with a load form.
 		form = append(form, Symbol(":initial-contents"), obj.AsList().LoadForm())
 	}
+	// make-array makes an adjustable array unless told otherwise.
 	if obj.adjustable {
 		form = append(form, Symbol(":adjustable"), True)
+	} else {
+		form = append(form, Symbol(":adjustable"), nil)
 	}
 	return form
 }
